@@ -37,17 +37,14 @@ THEOREMS = {
 }
 
 TIE_MODULE = "Cstl.SList.Tie"
-TIE_THEOREMS = [
-    "Cstl.SList.Tie.insertAfter_tie",
-    "Cstl.SList.Tie.eraseAfter_tie",
-    "Cstl.SList.Tie.insert_after_public_tie",
-    "Cstl.SList.Tie.pushFront_tie",
-    "Cstl.SList.Tie.pushBack_tie",
-    "Cstl.SList.Tie.popFront_tie",
-    "Cstl.SList.Tie.front_tie",
-    "Cstl.SList.Tie.back_tie",
-    "Cstl.SList.Tie.concat_tie",
-]
+def _tie_theorems():
+    import os
+    src = open(os.path.join(os.path.dirname(os.path.dirname(os.path.dirname(os.path.abspath(__file__)))),
+                            "lean", "Cstl", "SList", "Tie.lean")).read()
+    return ["Cstl.SList.Tie." + n for n in re.findall(r"^theorem\s+(\S+)", src, flags=re.M)]
+
+
+TIE_THEOREMS = _tie_theorems()
 
 NLISTS = 3
 
